@@ -37,6 +37,21 @@ type runner struct {
 	snaps  []snapshot
 	ansIDs map[string]int
 	hist   []string
+	custom bool // the tree is topic.NewTree(".", "*", ">"); topics are renamed on the way in
+}
+
+func (r *runner) m(s string) string {
+	if r.custom {
+		return toCustom.Replace(s)
+	}
+	return s
+}
+
+func (r *runner) unm(s string) string {
+	if r.custom {
+		return fromCustom.Replace(s)
+	}
+	return s
 }
 
 func (r *runner) keep(what string, l []interface{}) []interface{} {
@@ -76,14 +91,19 @@ func (r *runner) answers() string {
 	var b strings.Builder
 	step := len(r.hist)
 	for i, q := range r.uni {
+		mq := r.m(q)
+		tick("queries on " + q + " after " + strings.Join(r.hist, ","))
 		fmt.Fprintf(&b, "g%d=%s|m%d=%s|f%d=%s|s%d=%s|x%d=%s|",
-			i, vals(r.keep(fmt.Sprintf("Get(%q)@%d", q, step), r.t.Get(q))),
-			i, vals(r.keep(fmt.Sprintf("Match(%q)@%d", q, step), r.t.Match(q))),
-			i, first(r.t.MatchFirst(q)),
-			i, sortedVals(r.keep(fmt.Sprintf("Search(%q)@%d", q, step), r.t.Search(q))),
-			i, first(r.t.SearchFirst(q)))
+			i, vals(r.keep(fmt.Sprintf("Get(%q)@%d", q, step), r.t.Get(mq))),
+			i, vals(r.keep(fmt.Sprintf("Match(%q)@%d", q, step), r.t.Match(mq))),
+			i, first(r.t.MatchFirst(mq)),
+			i, sortedVals(r.keep(fmt.Sprintf("Search(%q)@%d", q, step), r.t.Search(mq))),
+			i, first(r.t.SearchFirst(mq)))
 	}
-	fmt.Fprintf(&b, "all=%s|cnt=%d|shape=%s", sortedVals(r.keep(fmt.Sprintf("All()@%d", step), r.t.All())), r.t.Count(), shape(r.t.String()))
+	fmt.Fprintf(&b, "all=%s|cnt=%d|shape=%s", sortedVals(r.keep(fmt.Sprintf("All()@%d", step), r.t.All())), r.t.Count(), shape(r.t.String(), r.unm))
+	tick("All/Count/String after " + strings.Join(r.hist, ","))
+	// a result must not be altered by later QUERIES either (e.g. a shared scratch buffer)
+	r.checkSnaps()
 	r.c.Stat("queries", 5*len(r.uni)+3)
 	return b.String()
 }
@@ -100,16 +120,26 @@ func (r *runner) ansID(a string) int {
 
 func (r *runner) fresh() {
 	r.t = topic.NewStandardTree()
+	if r.custom {
+		r.t = topic.NewTree(".", "*", ">")
+	}
 	r.snaps = r.snaps[:0]
 	r.hist = r.hist[:0]
 }
 
 // step applies one operation, re-checks every earlier snapshot, asks all queries; returns the answers id.
 func (r *runner) step(o op) int {
-	apply(r.t, o)
+	r.quiet(o)
+	return r.ansID(r.answers())
+}
+
+// quiet applies one operation and re-checks the snapshots, without asking the queries.
+func (r *runner) quiet(o op) {
+	mo := o
+	mo.topic = r.m(o.topic)
+	apply(r.t, mo)
 	r.hist = append(r.hist, o.text())
 	r.checkSnaps()
-	return r.ansID(r.answers())
 }
 
 func (r *runner) setUniverse(uni []string) {
@@ -183,8 +213,10 @@ func c05Exhaustive(c *hx.Ctx, r *runner, depth int) {
 	}
 }
 
-func c05Random(c *hx.Ctx, r *runner, topics, queries []string, values []int, seqs, maxLen int) {
+func c05Random(c *hx.Ctx, r *runner, topics, queries []string, values []int, seqs, maxLen int, custom bool) {
 	al := alphabet(topics, values)
+	r.custom = custom
+	defer func() { r.custom = false }()
 	r.setUniverse(queries)
 	for s := 0; s < seqs; s++ {
 		r.fresh()
@@ -217,6 +249,91 @@ func c05Random(c *hx.Ctx, r *runner, topics, queries []string, values []int, seq
 			c.Sample(fmt.Sprintf("random history of %d operations starting %s", n, strings.Join(text, " ")))
 		}
 	}
+}
+
+// c05Frontier explores by OBSERVABLE state (the answers string: all queries and the printed
+// structure): breadth first, every operation of the alphabet from every distinct state reached so
+// far, up to `depth` operations.  Together with c05Exhaustive (every sequence, no merging, up to
+// length 3/4) this reaches every state and transition of the small universe that needs up to `depth`
+// operations, deterministically.  Exchange line: seq <op,op,…> <ansid>  (history from the empty tree).
+func c05Frontier(c *hx.Ctx, r *runner, depth int) {
+	al := alphabet(smallTopics, []int{1, 2})
+	r.setUniverse(smallQueries)
+	r.fresh()
+	seen := map[int]bool{r.ansID(r.answers()): true}
+	frontier := [][]int{{}}
+	for d := 1; d <= depth && len(frontier) > 0; d++ {
+		var next [][]int
+		for _, p := range frontier {
+			for oi := range al {
+				r.fresh()
+				text := make([]string, 0, len(p)+1)
+				for _, k := range p {
+					r.quiet(al[k])
+					text = append(text, al[k].text())
+				}
+				id := r.step(al[oi])
+				text = append(text, al[oi].text())
+				c.Emit("seq %s %d", strings.Join(text, ","), id)
+				c.Stat("states", 1)
+				c.Stat("frontier_transitions", 1)
+				if !seen[id] {
+					seen[id] = true
+					next = append(next, append(append([]int{}, p...), oi))
+				}
+			}
+		}
+		frontier = next
+	}
+	c.Stat("frontier_states", len(seen))
+	c.Stat("frontier_depth", depth)
+}
+
+// c05Corpus: hand-made histories for situations the generators reach only by chance: values that
+// differ only by identity, the zero value, a string; deep branches emptied leaf-first and root-first;
+// Clear across many branches; Set over several values; Reset in the middle.
+func c05Corpus(c *hx.Ctx, r *runner) {
+	hist := [][]string{
+		{"A:61:900001", "A:61:900002", "A:61:900001", "R:61:900001", "A:612f62:900002", "C:900002", "A:61:900001", "S:61:900002", "R:61:900001"},
+		{"A:61:0", "A:61:900003", "A:612f2b:0", "S:612f23:900003", "R:61:0", "C:900003", "E:612f2b"},
+		{"A:612f622f63:1", "A:612f62:1", "A:61:1", "R:61:1", "R:612f62:1", "R:612f622f63:1"},
+		{"A:612f622f63:1", "A:612f62:2", "A:61:3", "R:612f622f63:1", "R:612f62:2", "R:61:3"},
+		{"A:612f622f63:1", "A:612f62:2", "E:612f62", "A:612f62:3", "E:612f622f63", "E:612f62"},
+		{"A:612f62:1", "A:612f2b:1", "A:612f23:1", "A:23:1", "A:62:1", "A:2b2f62:1", "A:61:2", "C:1", "C:2"},
+		{"A:61:1", "A:61:2", "A:61:3", "A:61:4", "R:61:1", "R:61:3", "A:61:1", "S:61:4", "A:61:2", "X", "A:61:2", "A:612f62:2", "X"},
+		{"A:-:1", "A:2f:2", "A:612f:3", "A:2f61:4", "A:612f2f62:1", "E:2f", "R:-:1", "C:1", "E:612f", "E:2f61"},
+		{"S:612f2b2f63:1", "S:612f622f63:2", "S:612f2b2f63:2", "S:2b2f62:1", "C:2", "S:612f23:3", "E:612f23", "R:2b2f62:1"},
+	}
+	// many values on one node: the swap-delete and the duplicate check far from the small sizes
+	var many []string
+	for v := 1; v <= 30; v++ {
+		many = append(many, fmt.Sprintf("A:612f62:%d", v))
+	}
+	for v := 2; v <= 30; v += 2 {
+		many = append(many, fmt.Sprintf("R:612f62:%d", v))
+	}
+	many = append(many, "A:612f62:30", "A:612f62:1", "R:612f62:1", "C:29", "A:61:29", "C:29", "S:612f62:5", "E:612f62")
+	hist = append(hist, many)
+	// a very deep branch grown and emptied again
+	deep := strings.Repeat("d/", 299) + "d"
+	hist = append(hist, []string{"A:" + hexs(deep) + ":1", "A:" + hexs(deep+"/e") + ":2", "A:" + hexs("d/d") + ":3", "R:" + hexs(deep) + ":1",
+		"E:" + hexs(deep+"/e"), "C:3"})
+	for _, custom := range []bool{false, true} {
+		r.custom = custom
+		r.setUniverse(bigQueries)
+		for _, h := range hist {
+			r.fresh()
+			c.Emit("new")
+			for _, t := range h {
+				o := parseOp(t)
+				c.Emit("push %s %d", o.text(), r.step(o))
+				c.Stat("states", 1)
+			}
+			c.Stat("histories", 1)
+			c.Stat("corpus_histories", 1)
+		}
+	}
+	r.custom = false
 }
 
 func c05Replay(c *hx.Ctx, r *runner) {
@@ -252,13 +369,19 @@ func runC05(c *hx.Ctx) {
 		c05Replay(c, r)
 		return
 	}
+	c05Corpus(c, r)
+	big := []int{0, 1, 900001, 900002}
 	if c.Thorough() {
 		c05Exhaustive(c, r, 4)
-		c05Random(c, r, smallTopics, smallQueries, []int{1, 2}, 400, 600)
-		c05Random(c, r, bigTopics, bigQueries, []int{1, 2, 3, 4}, 400, 800)
+		c05Frontier(c, r, 6)
+		c05Random(c, r, smallTopics, smallQueries, []int{1, 2}, 400, 600, false)
+		c05Random(c, r, bigTopics, bigQueries, big, 300, 800, false)
+		c05Random(c, r, bigTopics, bigQueries, big, 100, 800, true)
 	} else {
 		c05Exhaustive(c, r, 3)
-		c05Random(c, r, smallTopics, smallQueries, []int{1, 2}, 40, 300)
-		c05Random(c, r, bigTopics, bigQueries, []int{1, 2, 3, 4}, 40, 400)
+		c05Frontier(c, r, 4)
+		c05Random(c, r, smallTopics, smallQueries, []int{1, 2}, 30, 200, false)
+		c05Random(c, r, bigTopics, bigQueries, big, 20, 300, false)
+		c05Random(c, r, bigTopics, bigQueries, big, 8, 300, true)
 	}
 }
